@@ -512,6 +512,9 @@ class Engine(StmtMixin):
         self.oblige_sat(st, fi.node.lineno, "requires-satisfiable")
         old = st.clone()
         ctx.old = (old, frame)
+        # ghost instrumentation attached to the event "this function was called" (env `ghost_on_call`): counted whatever the outcome
+        for gname, expr in c.env.get("ghost_on_call", {}).items():
+            st.heap[st.ghost][gname] = ops.lift(self.eval1(ast.parse(expr, mode="eval").body, st, sctx))
         outcomes = self.exec_block(fi.node.body, st, ctx)
         for s2, oc in outcomes:
             self.paths_explored += 1
@@ -664,7 +667,7 @@ class Engine(StmtMixin):
             for f, ov in fields.items():
                 if f.startswith("$") or (oid, f) in allowed:
                     continue
-                if oid == st.ghost and f in ("suspensions", "futures_awaited"):
+                if oid == st.ghost and f in ("suspensions", "futures_awaited", "ssl_retry_calls"):
                     continue  # event counters (suspension points, awaited futures): every async function may change them; only
                     #           contracts that speak about one list it in `modifies` (then callers see it havocked)
                 nv = st.heap[oid].get(f)
